@@ -1,0 +1,25 @@
+//go:build verif
+
+package baseoutput
+
+import "github.com/relex/slog-agent/base"
+
+// VerifOpener returns the connection opener a ClientWorker was built with (nil for any other consumer).
+//
+// The verification harness takes it from a worker created by fluentdforward.NewClientWorker /
+// datadog.NewClientWorker, wraps the connections it returns in an event-logging decorator and builds its own
+// worker with NewClientWorker - the same construction as those packages use, plus the log.
+func VerifOpener(consumer base.ChunkConsumer) EstablishConnectionFunc {
+	if client, ok := consumer.(*ClientWorker); ok {
+		return client.openConn
+	}
+	return nil
+}
+
+// VerifMaxDuration returns the max session duration a ClientWorker was built with.
+func VerifMaxDuration(consumer base.ChunkConsumer) int64 {
+	if client, ok := consumer.(*ClientWorker); ok {
+		return int64(client.maxDuration)
+	}
+	return -1
+}
